@@ -36,6 +36,32 @@ Section Combined.
     apply (first_nonce_signature pt add neg O smul G n coords GL Hn _ d z k x y); try assumption; [lia|].
     rewrite (model_is_spec hmac hlen n ltac:(lia) kfuel d z Hd ltac:(lia)), Hk. reflexivity.
   Qed.
+
+  Hypothesis G_nonzero : G <> O.
+
+  (* with the default nonce function signing never raises for a key in [0, n-1] and a non-zero hash below 2^(8 hlen) *)
+  Theorem sign_never_raises_default kfuel fuel d z e : 0 <= d < n -> 0 < z < 256 ^ Z.of_nat hlen ->
+    sign_with_recid pt smul G n coords (deterministic_generate_k hmac hlen kfuel) fuel d z <> Raise e.
+  Proof.
+    intros Hd Hz. pose proof (prime_ge_2 n Hn) as H2.
+    apply (sign_never_raises pt add neg O smul G n coords GL Hn G_nonzero); [lia| |].
+    - intros e'. apply gen_k_never_raises; lia.
+    - intros k0. apply gen_k_range.
+  Qed.
+
+  (* ... and returns a signature as soon as the RFC 6979 loop has produced its nonce, some nonce of [1, n-1]
+     gives non-zero r and s, and the retry loop has n - 1 iterations of fuel *)
+  Theorem sign_total_default kfuel fuel d z k0 j : 0 <= d < n -> 0 < z < 256 ^ Z.of_nat hlen ->
+    rfc6979_k hmac n kfuel d (int_to_octets hlen z) = Some k0 ->
+    1 <= j < n -> nonce_good pt smul G n coords d z j -> n - 1 <= Z.of_nat fuel ->
+    exists sig, sign_with_recid pt smul G n coords (deterministic_generate_k hmac hlen kfuel) fuel d z = Ret sig.
+  Proof.
+    intros Hd Hz Hk Hj Hg Hf. pose proof (prime_ge_2 n Hn) as H2.
+    assert (Hgk : deterministic_generate_k hmac hlen kfuel n d z = Ret k0).
+    { rewrite (model_is_spec hmac hlen n ltac:(lia) kfuel d z Hd ltac:(lia)), Hk. reflexivity. }
+    apply (sign_total pt add neg O smul G n coords GL Hn G_nonzero _ fuel d z k0 j); try assumption; [lia|].
+    apply (gen_k_range _ _ _ _ _ _ _ Hgk).
+  Qed.
 End Combined.
 
 (* the HMAC message of steps d and f determines the key and the reduced hash *)
@@ -97,33 +123,9 @@ Qed.
 
 (* ---- witnesses on the toy curve y^2 = x^3 + 3 over Z_7, G = (1,2), n = 13 ---- *)
 Definition toy_verify (c : curve) := verify (pt c) (padd c) (psmul c) (pG c) (cn c) (pcoords c).
-Definition toy_recover (c : curve) := recover (pt c) (padd c) (psmul c) (pG c) (cn c) (plift_x c).
+Definition toy_recover (c : curve) := recover (pt c) (padd c) (psmul c) (pG c) (cn c) (cp c) (plift_x c).
 Definition toy_sign_with_k (c : curve) (fuel : nat) (d z k : Z) :=
   sign_with_recid (pt c) (psmul c) (pG c) (cn c) (pcoords c) (fun _ _ _ => Ret k) fuel d z.
-
-(* d = 2, z = 11, nonce 12 = n - 1 (which is what RFC 6979/HMAC-SHA256 yields for this pair): nonce 12 gives s = 0,
-   the retry k = 13 = n multiplies G to infinity and `None % n` raises TypeError *)
-Lemma toy13_sign_raises : forall fuel, toy_sign_with_k toy13 (S (S fuel)) 2 11 12 = Raise E_TYPE.
-Proof. intros fuel. vm_compute. reflexivity. Qed.
-
-Lemma toy13_sign_never_returns : forall fuel sig, toy_sign_with_k toy13 fuel 2 11 12 <> Ret sig.
-Proof.
-  intros [|[|fuel]] sig.
-  - vm_compute. discriminate.
-  - vm_compute. discriminate.
-  - rewrite toy13_sign_raises. discriminate.
-Qed.
-
-(* r = 8 >= p = 7: the keys recovered for (z, r, s) = (1, 8, 1) do not verify *)
-Lemma toy13_recover_unsound :
-  exists l Q, toy_recover toy13 1 8 1 None = Ret l /\ In Q l /\ toy_verify toy13 (Some Q) 1 8 1 = Ret false.
-Proof.
-  destruct (toy_recover toy13 1 8 1 None) as [l| |] eqn:E; [|vm_compute in E; discriminate|vm_compute in E; discriminate].
-  destruct l as [|Q l]; [vm_compute in E; discriminate|].
-  exists (Q :: l), Q. split; [reflexivity|]. split; [left; reflexivity|].
-  assert (HQ : Q = hd (pO toy13) (match toy_recover toy13 1 8 1 None with Ret l => l | _ => [] end)) by (rewrite E; reflexivity).
-  rewrite HQ. vm_compute. reflexivity.
-Qed.
 
 Lemma secp256k1_reduced_hash z : 0 <= z < 2 ^ 256 ->
   reduced_hash gen_rfc6979_hash_size gen_secp256k1_n z = z mod gen_secp256k1_n.
@@ -131,31 +133,33 @@ Proof.
   intros Hz. rewrite production_hash_size. apply reduced_hash_256; [reflexivity|apply production_orders_256_bits|exact Hz].
 Qed.
 
-Lemma refuted_recover_sound :
-  ~ (forall c : curve, curve_ok c = true ->
-     forall (z r s : Z) (yp : option Z) (l : list (EcdsaInst.pt c)) (Q : EcdsaInst.pt c), z <> 0 ->
-       toy_recover c z r s yp = Ret l -> In Q l -> toy_verify c (Some Q) z r s = Ret true).
-Proof.
-  intros H. destruct toy13_recover_unsound as [l [Q [H1 [H2 H3]]]].
-  specialize (H toy13 toy13_ok 1 8 1 None l Q ltac:(discriminate) H1 H2). rewrite H3 in H. discriminate.
-Qed.
-
-Lemma refuted_sign_total :
-  ~ (forall c : curve, curve_ok c = true ->
-     forall d z k : Z, 1 <= d < cn c -> z <> 0 -> 1 <= k < cn c ->
-       exists fuel sig, toy_sign_with_k c fuel d z k = Ret sig).
-Proof.
-  intros H. destruct (H toy13 toy13_ok 2 11 12) as [fuel [sig Hs]]; try (cbn; lia).
-  exact (toy13_sign_never_returns fuel sig Hs).
-Qed.
-
 Lemma toy_curves_satisfy_hypotheses :
   forall c, In c [toy13; toy11; toy19; toy23] ->
     group_laws (EcdsaInst.pt c) (padd c) (pneg c) (pO c) (psmul c) (cn c) (pcoords c) /\
-    lift_laws (EcdsaInst.pt c) (pcoords c) (plift_x c) (x_canonical c) /\ prime (cn c).
+    lift_laws (EcdsaInst.pt c) (pcoords c) (plift_x c) (fun x => 0 <= x < cp c) /\ prime (cn c) /\ pG c <> pO c.
 Proof.
   intros c Hc.
   assert (Hok : curve_ok c = true).
   { cbn in Hc. destruct Hc as [<-|[<-|[<-|[<-|[]]]]]; [apply toy13_ok|apply toy11_ok|apply toy19_ok|apply toy23_ok]. }
-  split; [apply inst_group_laws; exact Hok|]. split; [apply inst_lift_laws; exact Hok|apply n_prime; exact Hok].
+  split; [apply inst_group_laws; exact Hok|]. split; [apply inst_lift_laws; exact Hok|].
+  split; [apply n_prime; exact Hok|apply inst_G_nonzero; exact Hok].
 Qed.
+
+(* on the two smallest of them every key and every hash residue has a nonce with non-zero r and s *)
+Lemma toy_good_nonces :
+  forall c, In c [toy13; toy11] -> forall d z, 1 <= d < cn c -> 0 <= z < cn c ->
+    exists j, 1 <= j < cn c /\ nonce_good (EcdsaInst.pt c) (psmul c) (pG c) (cn c) (pcoords c) d z j.
+Proof.
+  intros c Hc d z Hd Hz.
+  assert (Hok : curve_ok c = true /\ good_nonce_ok c = true).
+  { cbn in Hc. destruct Hc as [<-|[<-|[]]]; split;
+      [apply toy13_ok|apply toy13_good_nonces|apply toy11_ok|apply toy11_good_nonces]. }
+  destruct Hok as [Hcok Hok].
+  destruct (good_nonce_ok_spec c Hcok Hok d z Hd Hz) as [j [Hj Hg]]. exists j. split; [exact Hj|].
+  unfold good_nonce_b in Hg. unfold nonce_good, pcoords.
+  destruct (praw c (psmul c j (pG c))) as [[x y]|]; [|discriminate].
+  exists x, y. split; [reflexivity|]. apply andb_true_iff in Hg. destruct Hg as [H1 H2].
+  split; [destruct (x mod cn c =? 0) eqn:E; [discriminate|lia]|].
+  destruct ((z + x mod cn c * d) mod cn c =? 0) eqn:E; [discriminate|lia].
+Qed.
+
